@@ -105,9 +105,12 @@ def run(ctx):
     ctx.rule("rs-writers", "rs is written only by the builder and the `s` read arm; enabled only after successful decryption")
     ctx.rule("rs-moved", "both conversions move rs unchanged")
     ctx.trust("rustc MIR; snowfacts")
+    ctx.rule("toggle-disable", "a key toggle is switched off only where that same toggle was observed off")
     for cfg in ctx.cfgs:
         F = ctx.facts[cfg]
         E = ctx.eff(cfg)
+        from . import errpath
+        errpath.check_toggle_disable(ctx, cfg)
         n = 0
         for ty in ("handshakestate::HandshakeState", "transportstate::TransportState", "stateless_transportstate::StatelessTransportState"):
             fn = F.one_fn(ty + "::get_remote_static")
